@@ -44,6 +44,32 @@ func init() {
 		}
 		return ParseSchemasObs(ins, lim)
 	}
+	// psb <limit|-1> <flags: one 0/1 per source = Source.BuiltIn> <hex> <hex> …
+	Ops["psb"] = func(a []string) string {
+		var lim int
+		fmt.Sscan(a[0], &lim)
+		srcs := make([]*ast.Source, 0, len(a)-2)
+		idx := map[*ast.Source]int{}
+		for i, h := range a[2:] {
+			b, _ := UnhexW(h)
+			s := &ast.Source{Input: string(b), Name: "s" + strconv.Itoa(i), BuiltIn: i < len(a[1]) && a[1][i] == '1'}
+			idx[s] = i
+			srcs = append(srcs, s)
+		}
+		var doc *ast.SchemaDocument
+		var err error
+		if lim < 0 {
+			doc, err = parser.ParseSchemas(srcs...)
+		} else {
+			doc, err = parser.ParseSchemasWithLimit(lim, srcs...)
+		}
+		if err != nil {
+			return ErrObs(err)
+		}
+		sx := Sx{Src: func(s *ast.Source) int { return idx[s] }}
+		sx.SchemaDoc(doc)
+		return sx.String()
+	}
 	// goquote <hex>: strconv.Quote
 	Ops["goquote"] = func(a []string) string {
 		b, _ := UnhexW(a[0])
